@@ -18,6 +18,7 @@ CHECKS = {
             {"run": "^TestC01SingleBuild$", "n": {"quick": 10000, "thorough": 60000}},
             # bursts over up to 520 distinct keys locked at the same time, drained to 1-3 builds in flight
             {"run": "^TestC01ManyKeys$", "n": {"quick": 400, "thorough": 4000}},
+            {"run": "^TestC02Layered$", "name": "C02Layered-for-C01", "n": {"quick": 2000, "thorough": 20000}},
             {"run": "^TestC01Sweep$", "n": {"quick": 1, "thorough": 1}, "env_tier": {"quick": {"VERIF_SWEEP_LIMIT": 30}, "thorough": {}},
              "shards": {"quick": 1, "thorough": 16}},
             {"run": "^TestC01Stress$", "race": True, "n": {"quick": 150, "thorough": 400}, "shards": {"quick": 1, "thorough": 8}},
@@ -39,6 +40,8 @@ CHECKS = {
             {"run": "^TestC02FaultEnum$", "n": {"quick": 1500, "thorough": 12000}},
             # a builder may also panic (its caller recovers): Gets waiting for that build get an error or build themselves
             {"run": "^TestC02PanickingBuilder$", "n": {"quick": 2000, "thorough": 20000}},
+            # layered caches: the builder of an outer Get reads the same key through another Failover instance
+            {"run": "^TestC02Layered$", "n": {"quick": 4000, "thorough": 40000}},
             # values torn or mixed up inside the backends' critical sections are out of the scheduler's reach:
             # the free-running twin (race detector + provenance of every result) covers them
             {"run": "^TestC01Stress$", "name": "C01Stress-for-C02", "race": True, "n": {"quick": 100, "thorough": 300}, "shards": {"quick": 1, "thorough": 8}},
@@ -77,6 +80,7 @@ CHECKS = {
             {"run": "^TestC01ManyKeys$", "name": "C01ManyKeys-for-C04", "n": {"quick": 300, "thorough": 3000}},
             # a background builder that ends its goroutine (runtime.Goexit) instead of returning
             {"run": "^TestC04GoexitBuilder$", "n": {"quick": 500, "thorough": 5000}},
+            {"run": "^TestC02Layered$", "name": "C02Layered-for-C04", "n": {"quick": 2000, "thorough": 20000}},
             # a Get ends in backend calls: after an aborted Walk / Dump / export every backend operation still completes
             # (real time, outside a bubble: a lock left behind blocks on a mutex, which a bubble cannot tell from slowness)
             {"run": "^TestC07AbortedWalk$", "name": "C07AbortedWalk-for-C04", "n": {"quick": 1500, "thorough": 15000}},
@@ -123,6 +127,10 @@ CHECKS = {
             {"run": "^TestC06SkipReadLone$", "n": {"quick": 3000, "thorough": 20000}},
             # hundreds of background builds whose callers are cancelled after their Get returned
             {"run": "^TestC01ManyKeys$", "name": "C01ManyKeys-for-C06", "n": {"quick": 300, "thorough": 3000}},
+            # layered caches: nested Gets on another instance under contexts derived from the builder context
+            {"run": "^TestC02Layered$", "name": "C02Layered-for-C06", "n": {"quick": 3000, "thorough": 40000}},
+            # a custom backend built on the exported Trait helpers under a Failover: default TTL of built values
+            {"run": "^TestC18TraitBackend$", "name": "C18TraitBackend-for-C06", "n": {"quick": 3000, "thorough": 40000}},
         ],
     },
     "C07": {
@@ -351,6 +359,8 @@ CHECKS = {
             {"run": "^TestC18Backend$", "n": {"quick": 10000, "thorough": 100000}},
             {"run": "^TestC18Failover$", "n": {"quick": 6000, "thorough": 40000}},
             {"run": "^TestC18Concurrent$", "n": {"quick": 6000, "thorough": 40000}},
+            # a custom backend built on the exported Trait / TraitOf helpers, tracker attached through Trait.Stat
+            {"run": "^TestC18TraitBackend$", "n": {"quick": 5000, "thorough": 60000}},
         ],
     },
 }
